@@ -21,6 +21,7 @@ import os
 from vlib import core
 
 NSLICES = 16
+OUTER_NSLICES = 4   # thorough: roots other than Type get every kind directly below them + 1/4 of the two-level chains
 OPS = ["SetField", "SetElem", "AppendWithinCap", "MapInsert", "MapDelete", "SetThroughPointer"]
 REAL_CHAINS = [["struct", k] for k in ("scalar", "ref", "constant_ref", "enum", "array", "map", "struct", "disjunction",
                                        "intersection", "composable_slot")] + \
@@ -32,42 +33,64 @@ def tla_set(names):
     return "{" + ", ".join('"%s"' % n for n in names) + "}"
 
 
-def design_level(ctx, cov):
-    """(a) TLC: Safe/ClassifyOK/OnlySharingLeaks over every copy routine x mutation sequence; plans from REVEAL."""
-    r = ctx.run_tlc("HeapMC", "HeapMC.cfg", workers=8, timeout=1200, constants={"MaxMut": 2})
-    revealed, sharing_defects, seen = {}, {}, set()
+def canonical(plan):
+    """k and k2 are interchangeable: rename so that k2 only acts after k has."""
+    seen_k = False
+    ren = {}
+    out = []
+    for a, op in plan:
+        if a in ("k", "k2") and a not in ren:
+            ren[a] = "k2" if seen_k else "k"
+            seen_k = True
+        out.append((ren.get(a, a), op))
+    return tuple(out)
+
+
+def design_level(ctx, cov, quick):
+    """(a) TLC: Safe/ClassifyOK/OnlySharingLeaks over every copy routine (applied twice) x mutation sequence through
+    any of the three values; (b) mutation plans from REVEAL: a core that covers every defect class + the rest."""
+    r = ctx.run_tlc("HeapMC", "HeapMC.cfg", workers=8 if quick else 16, timeout=1800,
+                    constants={"MaxMut": 2, "MaxDefects": 1 if quick else 8})
+    defects, revealed = {}, {}
+    for rec in core.tagged_lines(r["out"], "DEFECT"):
+        defects[(rec["tpl"], tuple(rec["defect"]))] = rec
     for rec in core.tagged_lines(r["out"], "REVEAL"):
         d = (rec["tpl"], tuple(rec["defect"]))
-        ops = tuple(rec["ops"])
-        seen.add(ops)
-        if not rec["disj"]:
-            sharing_defects.setdefault(d, set())
-        if rec["changed"]:
-            revealed.setdefault(ops, set()).add(d)
-            if not rec["disj"]:
-                sharing_defects[d].add(ops)
+        plan = canonical([(st["a"], st["op"]) for st in rec["plan"]])
+        revealed.setdefault(plan, set()).add(d)
     os.remove(r["out"])
-    hidden = [d for d, ops in sharing_defects.items() if not ops]
-    if hidden:
+    sharing = {d for d, rec in defects.items() if not rec["disj"]}
+    by_defect = {d: {p for p, ds in revealed.items() if d in ds} for d in sharing}
+    hidden = [d for d, ps in by_defect.items() if not ps]
+    if hidden or not sharing:
         raise core.Inconclusive("design level: sharing defects that no mutation sequence <= 2 reveals: %s" % hidden)
-    plans = sorted(list(p) for p in revealed)
-    singles = [p for p in plans if len(p) == 1]
-    if not plans or not singles:
+    # core: every revealing single step through the copy, plus for every defect class that no core plan reveals yet all
+    # of its shortest revealing plans (e.g. an empty slice with spare capacity: two values appending)
+    core_plans = {p for p in revealed if len(p) == 1 and p[0][0] == "k"}
+    for d in sorted(sharing):
+        if not (by_defect[d] & core_plans):
+            shortest = min(len(p) for p in by_defect[d])
+            core_plans |= {p for p in by_defect[d] if len(p) == shortest}
+    rotate = sorted(set(revealed) - core_plans)
+    if not core_plans:
         raise core.Inconclusive("design level: no revealing mutation plan found")
+    fmt = lambda ps: [[{"a": a, "op": op} for a, op in p] for p in sorted(ps)]
     cov["design"] = {
-        "copy_routines_x_mutation_sequences": r["distinct"],
-        "single_defect_copy_routines": len({d for ds in revealed.values() for d in ds} | set(sharing_defects)),
-        "sharing_defects_all_revealed": len(sharing_defects),
-        "mutation_sequences_seen": len(seen), "revealing_plans": len(plans),
-        "never_revealing": sorted("+".join(p) for p in seen - set(revealed)),
-        "invariants": "Safe (Iso /\\ Disjoint at copy time => Snapshot(original) unchanged), ClassifyOK, OnlySharingLeaks",
+        "states": r["distinct"], "max_defects_per_copy_routine": 1 if quick else 8,
+        "single_defect_copy_routines": len(defects), "sharing_defects_all_revealed": len(sharing),
+        "revealing_plans": len(revealed), "core_plans": ["+".join("%s:%s" % st for st in p) for p in sorted(core_plans)],
+        "defects_only_revealed_by_two_values_writing": sorted(
+            "%s.%s" % (d[1][0], d[1][1]) for d in sharing if min(len(p) for p in by_defect[d]) > 1),
+        "invariants": "Safe (Iso /\\ Disjoint at copy time => no step through one of original/copy/second copy changes "
+                      "the snapshot of another), ClassifyOK, OnlySharingLeaks",
     }
-    return r, plans
+    return r, {"core": fmt(core_plans), "rotate": fmt(rotate)}
 
 
 def shapes_from_tlc(ctx, roots, quick):
     consts = {"Roots": tla_set(roots["roots"]), "DeepRoots": tla_set(["Type"]), "MaxDepth": 3,
-              "NSlices": NSLICES if quick else 1, "Slice": ctx.seed % NSLICES if quick else 0}
+              "NSlices": NSLICES if quick else 1, "Slice": ctx.seed % NSLICES if quick else 0,
+              "OuterNSlices": 1 if quick else OUTER_NSLICES, "OuterSlice": 0 if quick else ctx.seed % OUTER_NSLICES}
     r = ctx.run_tlc("HeapShapes", "HeapShapes.cfg", workers=4, timeout=900, constants=consts)
     f = os.path.join(ctx.scratch, "shapes.ndjson")
     n = core.tagged_to_file(r["out"], "SHAPE", f)
@@ -86,7 +109,7 @@ def real_shapes(ctx):
         out.write(json.dumps({"root": "Schemas", "chain": ["struct", "scalar"], "fill": "saturated", "payload": "nested"}) + "\n")
         for chain in (["struct"], ["scalar"], ["ref"]):
             for fill, p in (("wellformed", "scalar"), ("wellformed", "slice"), ("wellformed", "map"), ("wellformed", "irnode"),
-                            ("saturated", "nested"), ("sparse", "slice")):
+                            ("saturated", "nested"), ("sparse", "slice"), ("nilled", "scalar"), ("emptied", "slice")):
                 out.write(json.dumps({"root": "Builder", "chain": chain, "fill": fill, "payload": p}) + "\n")
     return f
 
@@ -106,20 +129,22 @@ def trace_validation(ctx, trace, cov):
     consumed = _ints(r["out"], "CONSUMED")
     if not consumed or consumed[-1] != len(recs):
         raise core.Inconclusive("HeapTrace consumed %s of %d records" % (consumed, len(recs)))
-    failed = {f["l"]: set(f["violated"]) for f in core.tagged_lines(r["out"], "FAIL")}
+    failed = {f["l"]: f for f in core.tagged_lines(r["out"], "FAIL")}
     per_clause = {"Iso": 0, "Disjoint": 0, "Snapshot": 0}
     for i, rec in enumerate(recs, start=1):
-        v = failed.get(i, set())
+        v = set(failed[i]["violated"]) if i in failed else set()
         if "Drift" in v:
             raise core.Inconclusive("model and observation disagree on record %d (%s, plan %s): replaying the recorded writes on the "
-                                    "extracted heap predicts changed=%s" % (i, rec["shape"], rec["plan"], not rec["changed"]))
-        if rec["go_iso"] != ("Iso" not in v) or rec["go_disjoint"] != ("Disjoint" not in v) or rec["changed"] != ("Snapshot" in v):
-            raise core.Inconclusive("TLC and the worker disagree on record %d (%s): TLC %s, worker iso=%s disjoint=%s changed=%s"
-                                    % (i, rec["shape"], sorted(v), rec["go_iso"], rec["go_disjoint"], rec["changed"]))
+                                    "extracted heap predicts leaks %s, observed %s" % (i, rec["shape"], rec["plan"],
+                                                                                       sorted(failed[i]["predicted"]), rec["leaks"]))
+        if rec["go_iso"] != ("Iso" not in v) or rec["go_disjoint"] != ("Disjoint" not in v) or bool(rec["leaks"]) != ("Snapshot" in v):
+            raise core.Inconclusive("TLC and the worker disagree on record %d (%s): TLC %s, worker iso=%s disjoint=%s leaks=%s"
+                                    % (i, rec["shape"], sorted(v), rec["go_iso"], rec["go_disjoint"], rec["leaks"]))
         for c in per_clause:
             per_clause[c] += c in v
     cov["trace"] = {"records": len(recs), "records_failing_per_clause": per_clause,
-                    "records_with_writes": sum(1 for x in recs if x["muts"]),
+                    "records_with_writes": sum(1 for x in recs if x["writes"]),
+                    "records_per_fill": {f: sum(1 for x in recs if x["shape"]["fill"] == f) for f in sorted({x["shape"]["fill"] for x in recs})},
                     "max_cells": max(x["ncells"] for x in recs)}
     return r, recs, failed
 
@@ -168,7 +193,7 @@ def forget_one_scalar(rec):
 def selftest_binding(ctx, recs, failed):
     good = None
     for i, rec in enumerate(recs, start=1):
-        if i not in failed and rec["muts"] and rec["ncells"] >= 4:
+        if i not in failed and rec["writes"] and rec["ncells"] >= 6:
             probe = json.loads(json.dumps(rec))
             if share_one_cell(probe):
                 good = rec
@@ -183,8 +208,8 @@ def selftest_binding(ctx, recs, failed):
     if forget_one_scalar(bad2):
         variants["forgotten-scalar"] = bad2
     bad3 = json.loads(json.dumps(good))
-    bad3["changed"] = True
-    variants["observed-change"] = bad3
+    bad3["leaks"] = ["k>o"]
+    variants["observed-leak"] = bad3
     res = {}
     for name, rec in variants.items():
         r = ctx.run_tlc("HeapTrace", "HeapTrace.cfg", workers=1, timeout=300,
@@ -209,7 +234,7 @@ def replay(ctx):
         s = json.loads(ctx.run_worker(["c18-real", "-shapes", sf]))
         found.update(s["signatures"])
     else:
-        plans = [ex["plan"]] if ex.get("plan") else [[op] for op in OPS]
+        plans = {"core": [ex["plan"]] if ex.get("plan") else [[{"a": "k", "op": op}] for op in OPS], "rotate": []}
         pf = os.path.join(ctx.scratch, "plans.json")
         json.dump(plans, open(pf, "w"))
         s = json.loads(ctx.run_worker(["c18-run", "-shapes", sf, "-plans", pf]))
@@ -226,12 +251,20 @@ def run(ctx):
     if ctx.replay:
         return replay(ctx)
     cov = {}
-    roots = json.loads(ctx.run_worker(["c18-roots"]))
+    roots = json.loads(ctx.run_worker(["c18-roots", "-repo", core.REPO]))
     if len(roots["roots"]) < 2:
         raise core.Inconclusive("reflection found %d types with a DeepCopy method" % len(roots["roots"]))
+    # every DeepCopy method DECLARED in the current source tree (go/parser) must be one reflection reached
+    declared = {(d["pkg"], d["recv"]) for d in roots["declared"] if d["name"] == "DeepCopy"}
+    unreached = sorted("%s.%s" % d for d in declared if d[0] != "internal/ast" or d[1] not in roots["roots"])
+    if unreached or len(declared) != len(roots["roots"]):
+        raise core.Inconclusive("DeepCopy methods declared in the source tree but not reached by reflection from ast.Schemas / "
+                                "ast.Builders (extend the seeds of c18Roots): %s (declared %d, reached %d)" % (
+                                    unreached, len(declared), len(roots["roots"])))
+    cov["copy_helpers_declared"] = sorted("%s.%s" % (d["pkg"], d["name"]) for d in roots["declared"] if d["name"] != "DeepCopy")
 
     # (A) design level + mutation plans; shape universe
-    r_design, plans = design_level(ctx, cov)
+    r_design, plans = design_level(ctx, cov, quick)
     r_shapes, shapes_file, n_shapes = shapes_from_tlc(ctx, roots, quick)
     plans_file = os.path.join(ctx.scratch, "plans.json")
     json.dump(plans, open(plans_file, "w"))
@@ -239,7 +272,7 @@ def run(ctx):
     # (B) every shape x plan on the real DeepCopy methods
     trace = os.path.join(ctx.scratch, "trace.ndjson")
     args = ["c18-run", "-shapes", shapes_file, "-plans", plans_file, "-seed", str(ctx.seed), "-trace", trace,
-            "-trace-max", "1500" if quick else "6000", "-trace-cells", "150",
+            "-trace-max", "1200" if quick else "6000", "-trace-cells", "150",
             "-pairs", "2" if quick else "3"]
     s = json.loads(ctx.run_worker(args, timeout=3000))
     st = s["stats"]
@@ -273,7 +306,10 @@ def run(ctx):
         "states": sum(r["distinct"] for r in tl),
         "transitions": sum(r["generated"] for r in tl),
         "traces_validated_against_impl": len(recs),
-        "exhaustive": not quick,
+        "exhaustive": False,
+        "shape_coverage": ("slice %d of %d of the kind chains, every root, every payload/fill combination" % (ctx.seed % NSLICES, NSLICES)) if quick else
+                          ("Type: every kind chain to depth 3; the other %d roots: every kind directly below them and slice %d of %d of the "
+                           "two-level chains; every payload/fill combination" % (len(roots["roots"]) - 1, ctx.seed % OUTER_NSLICES, OUTER_NSLICES)),
         "evaluations": st["cases"] + rst["process_calls"] + rst["builder_duplicates_judged"] + rst["option_duplicates_judged"],
         "distinct_nontrivial": st["nontrivial_cases"],
         "rule": "one evaluation = one (shape, mutation plan) executed on a real DeepCopy method: instantiate the shape with the "
@@ -281,8 +317,8 @@ def run(ctx):
                 "a deep snapshot of the original - or one real Passes.Process call / duplicate rule application; shapes are "
                 "distinct TLC states and plans distinct op sequences; non-trivial = the plan performed at least one write on the copy",
         "deepcopy_methods": roots["roots"], "shapes_from_tlc": n_shapes, "shapes_instantiated": st["shapes"],
-        "shapes_skipped_as_duplicates": st["skipped_duplicate_shapes"], "plans": plans,
-        "plans_per_shape": "every single-step plan + %d two-step plans (rotating over all of them)" % (2 if quick else 3),
+        "shapes_skipped_as_duplicates": st["skipped_duplicate_shapes"], "plans_core": plans["core"], "plans_rotating": len(plans["rotate"]),
+        "plans_per_shape": "the core plans + %d of the %d other revealing plans (rotating)" % (2 if quick else 3, len(plans["rotate"])),
         "cells_extracted": st["cells"], "largest_heap_cells": st["max_cells"],
         "writes_on_copies_per_mutation_kind": st["sites_per_op"], "cases_per_mutation_kind": st["cases_per_op"],
         "shapes_per_root": st["shapes_per_root"], "observable_leaves_per_root": st["observable_leaves_per_root"],
@@ -298,8 +334,13 @@ def run(ctx):
             "slice %d/%d" % (ctx.seed % NSLICES, NSLICES) if quick else "all shapes"),
     })
     return ctx.finish("model_checking", cov, [
-        "a nil and an empty slice/map are the same value; a backing array only reachable through a slice of length 0 is not "
-        "counted as shared structure (no mutation of the copy can be observed through it: HeapMC)",
+        "stated equivalences of nil-ness: nil and empty are the same value for slice and map FIELDS (cog's own copy routines turn "
+        "one into the other); exact for pointers (a non-nil pointer to an empty struct is not nil) and for `any` slots (an "
+        "interface holding an empty list is not a nil interface); a slice without any capacity has no backing array",
+        "a backing array with capacity is structure of the value whatever the length of the slice header: two values holding the "
+        "same spare capacity overwrite each other's appends (HeapMC: revealed only by two values appending)",
+        "every copy is taken twice from the same original; plans are executed through the original, the copy or the second copy, "
+        "and after each step the two other values must be unchanged",
         "PassesTrail and VeneerTrail are compared like every other declared field",
         "`any` payloads are instantiated as scalars, []any, map[string]any, nested combinations and ast.DisjunctionType values "
         "(the dynamic types cog itself stores); other dynamic types are not generated",
